@@ -450,6 +450,8 @@ def run_incarnation(case, inc, spec, rundir, decisions, scratch, monitor_factory
     pid = os.fork()
     if pid == 0:
         try:
+            from sim.common import die_with_parent
+            die_with_parent()
             _child(case, inc, spec, rundir, decisions, outpath, monitor_factory, pre_install)
         finally:
             os._exit(99)
